@@ -20,7 +20,7 @@ Proof. intros. unfold relabel. rewrite in_map_iff. split; intros [e [H1 H2]]; ex
 
 Lemma parent_relabel : forall g c old new n, parent (relabel g c old new) n = parent g n.
 Proof.
-  intros g c old new n. unfold parent, relabel. induction g as [|e g IH]; [reflexivity|]. cbn.
+  intros g c old new n. unfold parent, relabel. rewrite <- map_rev. induction (rev g) as [|e l IH]; [reflexivity|]. cbn.
   destruct (Nat.eqb (e_dst e) c && ident_eqb (e_lbl e) old) eqn:E; cbn.
   - apply andb_true_iff in E as [E1 _]. apply Nat.eqb_eq in E1. rewrite E1.
     destruct (Nat.eqb c n); cbn; [reflexivity|]. apply IH.
